@@ -749,12 +749,13 @@ def decode_out(flat: list) -> dict | None:
         return None
     mode = flat[0]
     solved, par, rest = _split(flat[1:])
-    col, nexp = rest[0], rest[1]
-    ex = rest[2:]
+    col, fwd, nexp = rest[0], rest[1], rest[2]
+    ex = rest[3:]
     w = len(solved) + 3
     exps = [ex[i * w:(i + 1) * w] for i in range(nexp)]
-    return {"deviation": bool(mode), "solved": solved, "par": par, "column": col,
-            "expansions": [{"triangular": bool(e[0]), "solved": e[2:2 + len(solved)], "k": e[-1]} for e in exps]}
+    return {"deviation": bool(mode), "solved": solved, "par": par, "column": col, "forward": None if fwd < 0 else fwd,
+            "expansions": [{"triangular": bool(e[0]), "level_solution": e[1] == 0, "solved": e[2:2 + len(solved)], "k": e[-1]}
+                           for e in exps]}
 
 
 def impl_session(case: dict) -> list[dict]:
@@ -894,8 +895,16 @@ def _compare_session(case, tr, model_trace, res, stats) -> None:
         # expansion calls: one per variant whose data carry anticipated shocks, on the variant's own memo list
         want_exp = []
         for v, o in enumerate(outs):
-            if o is not None and o["expansions"]:
-                want_exp.append((v, o["expansions"][0]["triangular"], len(o["expansions"])))
+            if o is not None and o["forward"] is not None:
+                want_exp.append((v, op[0] != "simulate", o["forward"]))
+                # the matrices are those of the variant's own LEVEL solution, in the basis of the call, k = 0 .. forward-1
+                ok = (len(o["expansions"]) == o["forward"]
+                      and all(e["triangular"] == (op[0] != "simulate") and e["level_solution"] and e["solved"] == o["solved"]
+                              and e["k"] == i for i, e in enumerate(o["expansions"])))
+                if not ok:
+                    res.disagreements.append(Disagreement(f"{where}: the model's own expansion list is not canonical", case,
+                                                          o["expansions"], None))
+                    return
         got_exp = [(e["variant"], e["triangular"], e["forward"]) for e in it["expand"]]
         if op[0] in ("filter", "nll", "simulate") and sorted(want_exp) != sorted(set(got_exp)):
             res.disagreements.append(Disagreement(f"{where}: expansion calls (variant, triangular basis, forward)", case,
